@@ -232,6 +232,7 @@ func (req *SrvReq) process() {
 		req.status |= reqWork
 	}
 	req.Unlock()
+	verifPoint("process.check", req, flushed)
 
 	if flushed {
 		req.Respond()
@@ -244,6 +245,7 @@ func (req *SrvReq) process() {
 		req.Process()
 	}
 
+	verifPoint("process.end", req)
 	req.Lock()
 	req.status &= ^reqWork
 	if req.status&reqResponded == 0 {
@@ -387,6 +389,7 @@ func (req *SrvReq) Respond() {
 	req.status |= reqResponded
 	req.status &= ^reqWork
 	req.Unlock()
+	verifPoint("respond.mark", req, int(status))
 
 	if (status & reqResponded) != 0 {
 		return
@@ -417,6 +420,7 @@ func (req *SrvReq) Respond() {
 		flushreqs = req.flushreq
 	}
 	conn.Unlock()
+	verifPoint("respond.unlink", req)
 
 	if rop, ok := (req.Conn.Srv.ops).(SrvReqProcessOps); ok {
 		rop.SrvReqRespond(req)
@@ -424,6 +428,7 @@ func (req *SrvReq) Respond() {
 		req.PostProcess()
 	}
 
+	verifPoint("respond.post", req)
 	if (status & reqFlush) == 0 {
 		select {
 		case conn.reqout <- req:
@@ -431,6 +436,8 @@ func (req *SrvReq) Respond() {
 			// the connection is gone, nobody will take the reply
 		}
 	}
+
+	verifPoint("respond.queued", req)
 
 	// process the next request with the same tag (if available)
 	if nextreq != nil {
